@@ -51,7 +51,7 @@ def tasks_to_raws(tasks: Iterable[Task]) -> List[TaskRaw]:
             estimate=t.estimate,
             spent=t.spent,
             milestone=t.milestone,
-            parent_id=t.parent.id if t.parent and t.parent.id != 0 else None,
+            parent_id=t.parent.id if t.parent is not None else None,
             predecessor_ids=[p.id for p in t.predecessors]
         )
         for k in t.__dict__.keys():
